@@ -1,0 +1,22 @@
+//go:build verif
+
+package pool
+
+import "github.com/protolambda/zrnt/eth2/beacon/common"
+
+// VerifSyncSnapshot exposes the sync-committee pool buffers to the verification harness (read-only use).
+type VerifSyncSnapshot struct {
+	CurrentSlot                                 common.Slot
+	PrevMsgs, CurrentMsgs, NextMsgs             SyncCommitteeMessages
+	PrevContribs, CurrentContribs, NextContribs SyncCommitteeContributions
+}
+
+func (sp *SyncCommitteePool) VerifSnapshot() VerifSyncSnapshot {
+	sp.Lock()
+	defer sp.Unlock()
+	return VerifSyncSnapshot{
+		CurrentSlot: sp.currentSlot,
+		PrevMsgs:    sp.prevMsgs, CurrentMsgs: sp.currentMsgs, NextMsgs: sp.nextMsgs,
+		PrevContribs: sp.prevContribs, CurrentContribs: sp.currentContribs, NextContribs: sp.nextContribs,
+	}
+}
